@@ -157,6 +157,22 @@ def replay_known(ctx, binp):
             ctx.violation("ephemeral-topic-autodelete:" + name.replace("ephemeral_topic_", ""), "%s: %s" % (
                 name, " ".join("%s=%s" % x for x in sorted(kv.items()))),
                 sched + "# observed: " + " ".join("%s=%s" % x for x in sorted(kv.items())) + "\n")
+    # audit B9: hook-less rounds of "SUB while the last consumer of an ephemeral channel leaves" (asynchronous auto-delete)
+    name = "ephemeral_sub_after_last_leave"
+    rc, kv, out = run_sched(ctx, binp, name, timeout=120)
+    res[name] = kv or {"error": out[-300:]}
+    sched = open(os.path.join(ROOT, "corpus", "C08", name + ".sched")).read()
+    if not kv:
+        if rc == -9 or "test timed out" in out:
+            ctx.violation("daemon-hangs:" + name, "%s did not finish" % name, sched)
+        else:
+            ctx.broken_ties.append("replay %s did not run (rc=%s)" % (name, rc))
+    else:
+        ctx.evaluations += int(kv.get("rounds", "1"))
+        ctx.count_case("sched:" + name, nontrivial=True)
+        obs = " ".join("%s=%s" % x for x in sorted(kv.items()))
+        if kv.get("wrong") == "true":
+            ctx.violation("ephemeral-autodelete-leaves-zombie-consumer", "%s: %s" % (name, obs), sched + "# observed: " + obs + "\n")
     rc, kv, out = run_sched(ctx, binp, "empty_races_delivery")
     res["empty_races_delivery"] = kv or {"error": out[-300:]}
     if not kv:
@@ -166,6 +182,14 @@ def replay_known(ctx, binp):
         if kv.get("starved") == "true" or (kv.get("client_in_flight_count", "0") != "0" and kv.get("in_flight_map") == "0"):
             report(ctx, KEY_LEAK, "empty_races_delivery: " + " ".join("%s=%s" % x for x in sorted(kv.items())),
                    open(os.path.join(ROOT, "corpus", "C08", "known", "empty_races_delivery.sched")).read())
+        elif kv.get("heap") is not None and kv.get("heap") != kv.get("in_flight_map"):
+            # F48 (map insert + heap push one critical section): once the delivery and the Empty have both returned the
+            # heap holds exactly the in-flight messages (Props.C08.map_heap_agree_at_quiescence); the pre-F48 shape leaves
+            # the zombie entry of Props.C08.zombieSchedule
+            obs = " ".join("%s=%s" % x for x in sorted(kv.items()))
+            ctx.violation("heap-map-differ:empty_races_delivery", "empty_races_delivery: " + obs,
+                          open(os.path.join(ROOT, "corpus", "C08", "known", "empty_races_delivery.sched")).read() +
+                          "# observed: " + obs + "\n")
     for name in ("fin_races_empty_count", "req_races_empty_count"):
         rc, kv, out = run_sched(ctx, binp, name, timeout=90)
         res[name] = kv or {"error": out[-300:]}
@@ -569,9 +593,18 @@ def concurrent_leg(ctx, binp, rounds, ms, race_bin=None):
         rp = json.dumps({"kind": "conc", "seed": ctx.seed * 100 + i, "ms": ms})
         if ok:
             res["ok"] += 1
+            # audit B23: the free-running operations are a stress load, not correspondence evaluations; what counts
+            # is the number of oracle checks made on the quiescent daemon afterwards
             res["ops"] += int(ok[0].split("ops=")[1].split()[0])
             res["last"] = ok[0]
-            ctx.evaluations += int(ok[0].split("ops=")[1].split()[0])
+            nchk = int(ok[0].split("quiesce_checks=")[1].split()[0]) if "quiesce_checks=" in ok[0] else 0
+            res["quiesce_checks"] = res.get("quiesce_checks", 0) + nchk
+            ctx.evaluations += nchk
+            for l in out.splitlines():
+                if l.startswith("E5CONC oracle "):
+                    kv = dict(x.split("=", 1) for x in l.split()[2:] if "=" in x)
+                    ctx.violation("concurrent-quiesce:" + kv.get("key", "?"),
+                                  "free-running goroutines, then every worker stopped: " + l[len("E5CONC oracle "):], rp + "\n" + l)
             continue
         blocked = [l for l in out.splitlines() if l.startswith("E5CONC blocked")]
         if "WARNING: DATA RACE" in out:
@@ -639,10 +672,22 @@ def run(ctx):
         "go-diskqueue v1.1.0 (FIFO; Empty removes every file; Delete after Empty leaves none), container/heap for deferredPQ",
     ]
     ctx.assumptions += [
-        "deadlock freedom is proved for lock-only cycles (acyclic lock-nesting relation); blocking on unbuffered Go "
+        "deadlock freedom: lock_only_deadlock_free is a graph fact about the regenerated lock-nesting relation (audit B22); it speaks "
+        "about the tree through lock_order_acyclic, must_hold_edges (the nestings the models rely on are present), "
+        "unresolved_calls_pinned (8 call sites through function-typed fields, not followed, reviewed by hand) and no_recursive_lock; "
+        "only lock-only cycles are excluded; blocking on unbuffered Go "
         "channels (channelUpdateChan, pauseChan, notifyChan, diskqueue request channels) is outside the lemma — "
         "the harness watches liveness instead (every operation answers within its deadline)",
-        "micro-step model: one live *Message object per message id (ids are unique, C12); message ids are inputs",
+        "micro-step model: one live *Message object per message id (ids are unique, C12: `put o` is disabled while a container "
+        "or a parked operation still refers to id o); message ids are inputs",
+        "index_ok_every_schedule / map_heap_agree_at_quiescence / map_heap_agree_in_progress are theorems about the committed shape "
+        "fixed + scanAtomic + pushAtomic (F7, F16, F48), which the ties remove_guard_known, scan_shape_known, push_shape_known demand "
+        "of the tree (map_heap_agree_tree); the three counter-examples of the pre-F48 shape stay as theorems about that shape",
+        "empty_discards_held_fixed is a theorem about the tree WITH fixes/F27 (parameter ansLock, tie answers_channel_lock_shape; "
+        "the default run selects ansLock from the tree) under the hypothesis that no timeout scan holds a message when Empty begins "
+        "(forced: empty_discards_held_scan_false; open finding empty-races-timeout-scan-message-survives)",
+        "configuration: --sync-every >= 1 (E9 CfgOk.sync is an assumption on the configuration: nsqd does not validate the option; "
+        "with 0 the open finding sync-every-zero-delete-leaves-meta-file applies; fixes/F25 is a proposal only)",
         "no_zombie_fixed (topic deletion vs SUB / re-creation / second deletion) is a theorem about the tree with "
         "fixes/F19 + F20 (selected by the ties sub_guard_shape / delete_topic_shape); without them DeleteDisconnectsFull "
         "is false (delete_disconnects_full_false, witnessDouble_leaks) and both witnesses are replayed as known findings; "
